@@ -14,7 +14,7 @@ RULE = ("(a) every subcircuit object returned by the emulator for basis-state pr
         "counting. non-trivial = n >= 2 (bit order observable); distinct = (mode, n, program or outcome list hash)")
 ASSUMPTIONS = ["bits(k, n): character i of the string = bit i of the integer (qubit 0 leftmost and least significant)"]
 TIERS = {"quick": {"shards": 8, "budget_s": 40}, "thorough": {"shards": 16, "budget_s": 300}}
-REQUIRE = {"mode:emulator": 100, "mode:outputs": 50, "mode:direct": 50, "non-palindromic-certain-outcomes": 50,
+REQUIRE = {"mode:job": 50, "mode:emulator": 100, "mode:outputs": 50, "mode:direct": 50, "non-palindromic-certain-outcomes": 50,
            "outcomes-as-int": 500, "outcomes-as-str": 500, "views-checked": 300}
 
 
@@ -104,6 +104,52 @@ def judge_emulator(case):
     return "ok", fails, info
 
 
+def judge_job(case):
+    """A prepared job executed several times: the same subcircuit objects accumulate readouts;
+    every view is read between the executions and must stay consistent with the readouts."""
+    from jaqalpaq.emulator.unitary import UnitarySerializedEmulator
+
+    prog = case_prog(case)
+    st, s = X.setup(prog)
+    if st != "ok":
+        return st, [], None
+    P = s.P
+    try:
+        scan = P.flat_scan()
+    except refexec.Reject:
+        return "skipped:not-well-bracketed", [], None
+    if P.overlap() is not None or P.repeated_qubit_gate() is not None or scan["trailing_gates"]:
+        return "skipped:invalid", [], None
+    o = lib.outcome(lambda: lib.expand_macros(lib.fill_in_let(lib.expand_subcircuits(s.c))))
+    if o[0] != "ok":
+        return "skipped:expand-" + o[0], [], None
+    np.random.seed(case.get("npseed", 1))
+    oj = lib.outcome(lambda: UnitarySerializedEmulator()(o[1]))
+    if oj[0] != "ok":
+        return "skipped:job-" + oj[0], [], None
+    job = oj[1]
+    fails = []
+    info = {"n": s.n, "views": 0, "executions": 0}
+    total = 0
+    for k in range(case.get("executions", 3)):
+        r = lib.budgeted(job.execute, X.budget_for(P))
+        if r[0] != "ok":
+            return "skipped:execute-" + r[0], fails, info
+        info["executions"] += 1
+        res = r[1]
+        total += len(res.readouts)
+        for sc in res.subcircuits:
+            check_views("job(execution %d)" % (k + 1), sc, s.n, fails, True)
+            info["views"] += 1
+            if fails:
+                return "ok", [(c.replace("job(execution %d)" % (k + 1), "job:after-reexecution" if k else "job:first-execution"), d) for c, d in fails], info
+        got = sum(len(sc.readouts) for sc in res.subcircuits)
+        if got != total:
+            fails.append(("job:readouts-not-accumulated-consistently", {"expected": total, "got": got}))
+            break
+    return "ok", fails, info
+
+
 def judge_outputs(case):
     """One subcircuit visited len(outs) times; outcomes supplied as int and as str."""
     n = case["n"]
@@ -183,6 +229,8 @@ def judge(case):
         return judge_emulator(case)
     if m == "outputs":
         return judge_outputs(case)
+    if m == "job":
+        return judge_job(case)
     return judge_direct(case)
 
 
@@ -244,7 +292,7 @@ def shard(ctx):
     rec.exhaustive = True
     rec.note("exhaustive_outcomes", "every outcome 0..2^n-1 for n<=%d supplied as int, as str and mixed" % top)
     i = 0
-    n_total = ctx.scale(1600, 40000)
+    n_total = ctx.scale(10000, 40000)
     while i < n_total and not rec.expired():
         i += 1
         r = rng.random()
@@ -252,10 +300,14 @@ def shard(ctx):
             n = rng.randint(1, maxn)
             prog, k = basis_program(rng, n)
             process(ctx, {"mode": "emulator", "prog": prog, "certain": k, "npseed": rng.randrange(1 << 30)})
-        elif r < 0.6:
+        elif r < 0.5:
             size = rng.randint(1, maxn - 1)
             g = gen.ExecGen(rng, reg_size=(size, size), max_depth=2, body_len=(1, 2), n_maps=(0, 2), n_macros=(0, 1))
             process(ctx, {"mode": "emulator", "prog": g.program(), "npseed": rng.randrange(1 << 30)})
+        elif r < 0.6:
+            size = rng.randint(1, 3)
+            g = gen.ExecGen(rng, reg_size=(size, size), max_depth=2, body_len=(1, 3), n_maps=(0, 1), n_macros=(0, 1), loop_counts=(1, 2, 3))
+            process(ctx, {"mode": "job", "prog": g.program(), "npseed": rng.randrange(1 << 30), "executions": rng.choice([2, 3])})
         elif r < 0.8:
             n = rng.randint(7, 10)
             vals = [rng.randrange(2 ** n) for _ in range(rng.randint(1, 12))]
